@@ -288,6 +288,11 @@ void traverse_for_images(token * t, DString * text, mmd_engine * e, long * offse
 				if (t->next && t->next->type == PAIR_PAREN) {
 					t = t->next;
 
+					if ((t->len < 2) || (t->len - 2 >= 1000)) {
+						// Won't fit in the url buffer -- can't be one of our assets
+						break;
+					}
+
 					memcpy(url, &text->str[t->start + *offset + 1], t->len - 2);
 					url[t->len - 2] = '\0';
 					clean = clean_string(url, false, true);
@@ -316,7 +321,11 @@ void traverse_for_images(token * t, DString * text, mmd_engine * e, long * offse
 
 							if (l->label->start == t->child->start) {
 								// This is a match
-								HASH_FIND_STR(e->asset_hash, l->url, a);
+								a = NULL;
+
+								if (l->url) {
+									HASH_FIND_STR(e->asset_hash, l->url, a);
+								}
 
 								if (a) {
 									memcpy(&destination[7], a->asset_path, 36);
